@@ -16,7 +16,7 @@ Ltac gunf0 := unfold g_safety_rule_1, g_safety_rule_2, g_can_extend, g_can_exten
   g_advance_next, g_two_chain, g_round_gate, g_quorum_consensus, g_quorum_mempool,
   g_commit_stop, g_commit_anc_front, g_commit_head_front, g_commit_pop_back, g_commit_head_first,
   g_block_stake, g_vote_stake, g_timeout_stake, g_qc_entry_stake, g_qc_weight, g_tc_entry_stake, g_tc_weight,
-  g_qcm_threshold, g_qcm_reset, g_tcm_threshold, g_tcm_reset, g_leader_index in *.
+  g_qcm_threshold, g_qcm_reset, g_tcm_threshold, g_tcm_reset, g_leader_index, g_agg_keep_votes, g_agg_keep_timeouts in *.
 
 Ltac gunf := gunf0; unfold dq_push in *.
 Ltac gunfdq := unfold src_dq in *; cbn [dq_stop dq_anc_front dq_head_front dq_pop_back dq_head_first] in *; gunf.
